@@ -192,6 +192,18 @@ def run_cases(ctx, res, cases, tmp, keypath, key):
             if r1[0] == "ok" and not tag and F.satisfies(f, unproxy(r1[1])) is False:
                 res.violate("C05:accepted-breaks-declared-constraint:" + f["k"], "a value was accepted although it breaks a constraint the field declares",
                             dict(case, accepted=F.enc_val(r1[1])))
+            known, exact = F.independent_normal(f, v)
+            if known and not tag:
+                # exactness both ways for whole numbers: the value the field stands for is fixed by the declaration alone, so is its verdict
+                meets = F.satisfies(dict(f, required=False), exact) is True
+                if meets and r1[0] != "ok":
+                    res.violate("C05:rejects-what-meets-the-declaration:" + f["k"], "a value whose whole number meets the declared bounds was rejected",
+                                dict(case, stands_for=exact, outcome=r1[1]))
+                elif meets and not (type(r1[1]) is int and r1[1] == exact):
+                    res.violate("C05:wrong-normal-form:" + f["k"], "validation does not return the whole number the value stands for", dict(case, stands_for=exact, got=F.enc_val(r1[1])))
+                elif not meets and r1[0] == "ok":
+                    res.violate("C05:accepted-breaks-declared-constraint:" + f["k"], "a value was accepted although the whole number it stands for breaks the declared bounds",
+                                dict(case, stands_for=exact, accepted=F.enc_val(r1[1])))
             if r1[0] == "ok" and f.get("custom") and f["k"] in ("string", "int", "float"):
                 # a field's result is what its own validator returned, whatever that is (0, "", False included)
                 try:
